@@ -45,6 +45,10 @@ def run(pid, tier):
                           f['verifier_output'], failing_input={'harness': cex['harness'], 'bytes': cex['input_bytes'],
                                                                'failed_on_real_code': cex['replay_failed']},
                           replay_transcript=cex['replay_stdout'])
+        elif unit_lattice.companions_all_passed(f, unit):
+            out.inconclusive.append('verus could not prove %s, but every companion Kani harness of this impl (%s) verified on the full domain of its '
+                                    'instantiation and no failing input exists in the enumerated domains: the generic PROOF is lost (e.g. a refactor outside the '
+                                    'solver\'s automation), no violation is demonstrated.\n%s' % (f['obligation'], ', '.join(unit_lattice.companions(f)), f['verifier_output'][:1500]))
         else:
             out.violation(f['obligation'], 'verus', f['verifier_output'])
     # ---- Kani
